@@ -33,7 +33,7 @@ COMPONENTS = {
 ASSUMPTIONS = ["addresses 0x100100-0xFFFFFF (after 24-bit wrap) belong to neither space and are not generated",
                "card-slot addresses beyond the inserted card's size and reads of an absent card are unspecified; "
                "only 'writes are not latched' is demanded there",
-               "overlays are not placed inside the RAM mirror window or its target"]
+               "overlays are not placed on the mirror window's target (0xB8000-0xBFFFF)"]
 PROBES = ["imem_store", "imem_wide_store", "imem_store_across_device_cell", "straddle_region_edge", "alias_wrap24", "alias_mirror", "rom_write", "readonly_write", "card_absent_write",
           "card_swap", "overlay_add", "overlay_remove", "int_ext_boundary", "imem_access", "wide_access"]
 
@@ -158,6 +158,10 @@ def _gen_cfg(r: Rng, ex: str) -> Dict[str, Any]:
     if r.chance(1, 2):
         start = r.choice([0x50000, 0x60000, 0x70000, 0x5FFF0])
         cfg["ram_ov"].append([start, r.choice([0x10, 0x100, 0x1000, 0x8000]), "xram"])
+    if ex == "rs-mem" and cfg["mirror"] and r.chance(1, 4):
+        # an expansion overlay placed inside the mirror window: the overlay is looked up on the address as issued,
+        # before the window is folded onto the internal RAM, for loads and stores alike
+        cfg["ram_ov"].append([r.choice([0x90000, 0xA7FF0, 0x88100]), r.choice([0x10, 0x100]), "mram"])
     if r.chance(1, 3):
         start = r.choice([0x58000, 0x6F000, 0x7FF00])
         n = r.choice([0x10, 0x100])
